@@ -6,6 +6,7 @@ open Neutrino.Rescan
 #print axioms stepGood_ok
 #print axioms trackInv_next
 #print axioms C09_walk_current_arm
+#print axioms C09_disconnect_reported
 #print axioms C09_reorg_above_keeps_cur
 #print axioms C09_no_miss
 #print axioms C09_retry
